@@ -133,6 +133,7 @@ def step (st : DState) : List String → DState × String
     match id.toNat?, t.toInt?, dec m with
     | some id, some t, some m => withUser st id (fun u => .ok { u with auth := u.auth ++ [(t, m)] })
     | _, _, _ => (st, "bad-op")
+  | ["creload"] => ({ st with db := st.db.reloadChannels }, "ok")
   | ["ccap_add", ch, cap] =>
     match dec ch, dec cap with
     | some ch, some cap => withChan st ch (fun c => c.addCapability cap)
